@@ -60,7 +60,19 @@ impl Srv {
         let mut child = cmd.spawn().map_err(|e| format!("spawn {}: {}", bin, e))?;
         let deadline = Instant::now() + Duration::from_secs(if strace_out.is_some() { 20 } else { 8 });
         loop {
-            for a in probe_addrs {
+            // when no address is given, the one the server announces ("Setting up http://ADDR...") is used: probing a
+            // list of candidates could reach a different server started by a parallel case
+            let announced: Vec<SocketAddr> = if probe_addrs.is_empty() {
+                let so = std::fs::read_to_string(&stdout_path).unwrap_or_default();
+                so.find("Setting up http://")
+                    .and_then(|i| so[i + 18..].find("...").map(|j| so[i + 18..i + 18 + j].to_string()))
+                    .and_then(|a| a.parse().ok())
+                    .into_iter()
+                    .collect()
+            } else {
+                vec![]
+            };
+            for a in probe_addrs.iter().chain(announced.iter()) {
                 if let Ok(s) = TcpStream::connect_timeout(a, Duration::from_millis(100)) {
                     // the probe connection occupies a worker until it is closed: close it at once
                     drop(s);
@@ -568,5 +580,259 @@ pub fn fs(o: &Opts) -> i32 {
     let n = out.n;
     out.finish();
     eprintln!("wire-fs: {} requests, {} file-system calls, {} events", sent, nsys, n);
+    0
+}
+
+// ----------------------------------------------------------------------------- C12
+
+const SETTINGS: &[(&str, &str, &str, &str, &str)] = &[
+    // setting, environment variable, long flag, short flag, toml key ([cors] table keys are prefixed "cors.")
+    ("ip", "RWS_CONFIG_IP", "ip", "i", "ip"),
+    ("port", "RWS_CONFIG_PORT", "port", "p", "port"),
+    ("threads", "RWS_CONFIG_THREAD_COUNT", "thread-count", "t", "thread_count"),
+    ("alloc", "RWS_CONFIG_REQUEST_ALLOCATION_SIZE_IN_BYTES", "request-allocation-size-in-bytes", "r", "request_allocation_size_in_bytes"),
+    ("all", "RWS_CONFIG_CORS_ALLOW_ALL", "cors-allow-all", "a", "cors.allow_all"),
+    ("origins", "RWS_CONFIG_CORS_ALLOW_ORIGINS", "cors-allow-origins", "o", "cors.allow_origins"),
+    ("creds", "RWS_CONFIG_CORS_ALLOW_CREDENTIALS", "cors-allow-credentials", "c", "cors.allow_credentials"),
+    ("headers", "RWS_CONFIG_CORS_ALLOW_HEADERS", "cors-allow-headers", "h", "cors.allow_headers"),
+    ("methods", "RWS_CONFIG_CORS_ALLOW_METHODS", "cors-allow-methods", "m", "cors.allow_methods"),
+    ("expose", "RWS_CONFIG_CORS_EXPOSE_HEADERS", "cors-expose-headers", "e", "cors.expose_headers"),
+    ("maxage", "RWS_CONFIG_CORS_MAX_AGE", "cors-max-age", "g", "cors.max_age"),
+];
+
+fn as_map(v: &Value) -> Vec<(String, String)> {
+    match v.as_object() {
+        Some(o) => o.iter().map(|(k, v)| (k.clone(), v.as_str().unwrap_or("").to_string())).collect(),
+        None => vec![], // TLC prints the empty function as []
+    }
+}
+
+fn toml_value(setting: &str, value: &str, style: &str) -> String {
+    let q = if style == "comments_quotes" { '\'' } else { '"' };
+    match setting {
+        "port" | "threads" | "alloc" => value.to_string(),
+        "all" | "creds" => value.to_string(),
+        "origins" | "headers" | "methods" | "expose" => {
+            let items: Vec<String> = value.split(',').map(|x| format!("{}{}{}", q, x, q)).collect();
+            format!("[{}]", items.join(", "))
+        }
+        _ => format!("{}{}{}", q, value, q),
+    }
+}
+
+fn render_toml(file: &[(String, String)], form: &str, style: &str) -> String {
+    let mut root: Vec<String> = vec![];
+    let mut cors: Vec<String> = vec![];
+    let eq = if style == "reordered_spaces" { "   =  " } else { " = " };
+    for (s, v) in file {
+        let key = SETTINGS.iter().find(|x| x.0 == s).unwrap().4;
+        let (is_cors, name) = match key.strip_prefix("cors.") {
+            Some(n) => (true, n.to_string()),
+            None => (false, key.to_string()),
+        };
+        let name = if form == "hyphen" { name.replace('_', "-") } else { name };
+        let comment = if style == "comments_quotes" { format!(" # {} as documented", s) } else { String::new() };
+        let line = |k: &str| format!("{}{}{}{}", k, eq, toml_value(s, v, style), comment);
+        if is_cors && form == "root" {
+            root.push(line(&format!("cors_{}", name)));
+        } else if is_cors {
+            cors.push(line(&name));
+        } else {
+            root.push(line(&name));
+        }
+    }
+    if style == "reordered_spaces" {
+        root.reverse();
+        cors.reverse();
+    }
+    let mut out = String::new();
+    if style == "comments_quotes" {
+        out.push_str("# rws configuration\n\n");
+    }
+    for l in root {
+        out.push_str(&l);
+        out.push('\n');
+        if style == "comments_quotes" {
+            out.push('\n');
+        }
+    }
+    if !cors.is_empty() {
+        out.push_str(if style == "reordered_spaces" { "\n  [cors]  \n" } else { "\n[cors]\n" });
+        for l in cors {
+            out.push_str(&l);
+            out.push('\n');
+        }
+    }
+    out
+}
+
+fn header_value(raw: &Option<Vec<u8>>, name_lower: &str) -> Option<String> {
+    let r = raw.as_ref()?;
+    let p = project(r, "hi");
+    for h in p["hs"].as_array()? {
+        if h["nl"] == name_lower {
+            return Some(h["v"].as_str().unwrap_or("").to_string());
+        }
+    }
+    None
+}
+
+fn one_launch(bin: &str, scratch: &Path, idx: usize, case: &Value) -> Value {
+    let dir = scratch.join(format!("cfg{}", idx)).join("tree").join("site");
+    make_site(&dir);
+    // port tokens -> free ports; a filler port on the command line when the case is not about the port
+    let mut ports = std::collections::HashMap::new();
+    for t in ["P_env", "P_file", "P_cli"] {
+        ports.insert(t.to_string(), free_port().to_string());
+    }
+    let subst = |m: Vec<(String, String)>| -> Vec<(String, String)> {
+        m.into_iter().map(|(k, v)| { let v2 = ports.get(&v).cloned().unwrap_or(v); (k, v2) }).collect()
+    };
+    let env = subst(as_map(&case["env"]));
+    let file = subst(as_map(&case["file"]));
+    let mut cli = subst(as_map(&case["cli"]));
+    let focus: Vec<String> = case["focus"].as_array().map(|a| a.iter().map(|x| x.as_str().unwrap().to_string()).collect()).unwrap_or_default();
+    let port_supplied = env.iter().chain(file.iter()).chain(cli.iter()).any(|(k, _)| k == "port");
+    if !focus.iter().any(|f| f == "port") && !port_supplied {
+        cli.push(("port".to_string(), free_port().to_string()));
+    }
+    // render the three sources
+    let env_vars: Vec<(String, String)> = env.iter().map(|(s, v)| (SETTINGS.iter().find(|x| x.0 == s).unwrap().1.to_string(), v.clone())).collect();
+    if !file.is_empty() {
+        std::fs::write(dir.join("rws.config.toml"), render_toml(&file, case["file_form"].as_str().unwrap_or("table"), case["style"].as_str().unwrap_or("plain"))).unwrap();
+    }
+    let short = case["cli_form"] == "short";
+    let args: Vec<String> = cli.iter().map(|(s, v)| {
+        let row = SETTINGS.iter().find(|x| x.0 == s).unwrap();
+        if short { format!("-{}={}", row.3, v) } else { format!("--{}={}", row.2, v) }
+    }).collect();
+    // candidate addresses
+    let mut cand_ports: Vec<String> = env.iter().chain(file.iter()).chain(cli.iter()).filter(|(k, _)| k == "port").map(|(_, v)| v.clone()).collect();
+    cand_ports.push("7878".to_string());
+    let mut cand_ips: Vec<String> = vec!["127.0.0.1".into(), "127.0.0.2".into(), "127.0.0.3".into(), "127.0.0.4".into()];
+    cand_ips.dedup();
+    let mut addrs: Vec<SocketAddr> = vec![];
+    for p in cand_ports.iter() {
+        for ip in cand_ips.iter() {
+            if let Ok(a) = format!("{}:{}", ip, p).parse() {
+                addrs.push(a);
+            }
+        }
+    }
+    let given = json!({
+        "env": env.iter().cloned().collect::<std::collections::BTreeMap<_, _>>(),
+        "file": file.iter().cloned().collect::<std::collections::BTreeMap<_, _>>(),
+        "cli": cli.iter().cloned().collect::<std::collections::BTreeMap<_, _>>(),
+    });
+    let na = "n/a";
+    let mut obs = serde_json::Map::new();
+    for s in SETTINGS {
+        obs.insert(s.0.to_string(), json!(na));
+    }
+    let _ = addrs;
+    let mut srv = match Srv::start(bin, &dir, &env_vars, &args, &[], None, &format!("cfg{}", idx)) {
+        Ok(s) => s,
+        Err(e) => {
+            return json!({"ev":"Launch","case":idx,"focus":focus,"given":given,"obs":obs,"started":false,"error":e,
+                          "rendered":{"env":env_vars,"argv":args,"toml":std::fs::read_to_string(dir.join("rws.config.toml")).unwrap_or_default()}});
+        }
+    };
+    let addr = srv.addr;
+    let t = Duration::from_secs(3);
+    obs.insert("ip".into(), json!(addr.ip().to_string()));
+    obs.insert("port".into(), json!(addr.port().to_string()));
+    // thread count: the start-up line
+    std::thread::sleep(Duration::from_millis(30));
+    let so = srv.stdout();
+    if let Some(i) = so.find("Spawned ") {
+        let rest = &so[i + 8..];
+        if let Some(j) = rest.find(' ') {
+            obs.insert("threads".into(), json!(rest[..j].to_string()));
+        }
+    }
+    // request buffer: echoed by the upload endpoint
+    let r = exchange(addr, b"POST /file-upload/initiate?name=a&lastModified=1&size=1 HTTP/1.1\r\nHost: localhost\r\n\r\n", t);
+    if let Some(raw) = &r {
+        let text = String::from_utf8_lossy(raw).to_string();
+        if let Some(i) = text.find("request_allocation_size_in_bytes is ") {
+            let rest = &text[i + 36..];
+            let num: String = rest.chars().take_while(|c| c.is_ascii_digit()).collect();
+            obs.insert("alloc".into(), json!(num));
+        }
+    }
+    // the allow-all switch: an Origin no source lists is granted only in allow-all mode
+    let r = exchange(addr, b"GET /a.txt HTTP/1.1\r\nHost: localhost\r\nOrigin: https://unlisted.example\r\n\r\n", t);
+    let all = header_value(&r, "access-control-allow-origin").is_some();
+    if r.is_some() {
+        obs.insert("all".into(), json!(all.to_string()));
+    }
+    if r.is_some() && !all {
+        // which configured origin is granted, and with which preflight grants
+        let mut granted: Vec<(String, Option<Vec<u8>>)> = vec![];
+        for o in ["https://env.example", "https://file.example", "https://cli.example"] {
+            let req = format!("OPTIONS /a.txt HTTP/1.1\r\nHost: localhost\r\nOrigin: {}\r\nAccess-Control-Request-Method: PUT\r\n\r\n", o);
+            let r = exchange(addr, req.as_bytes(), t);
+            if header_value(&r, "access-control-allow-origin").is_some() {
+                granted.push((o.to_string(), r));
+            }
+        }
+        let names: Vec<String> = granted.iter().map(|g| g.0.clone()).collect();
+        obs.insert("origins".into(), json!(names.join(",")));
+        if let Some((_, r)) = granted.first() {
+            obs.insert("creds".into(), json!(header_value(r, "access-control-allow-credentials").unwrap_or_default()));
+            obs.insert("methods".into(), json!(header_value(r, "access-control-allow-methods").unwrap_or_default()));
+            obs.insert("headers".into(), json!(header_value(r, "access-control-allow-headers").unwrap_or_default()));
+            obs.insert("expose".into(), json!(header_value(r, "access-control-expose-headers").unwrap_or_default()));
+            obs.insert("maxage".into(), json!(header_value(r, "access-control-max-age").unwrap_or_default()));
+        }
+    }
+    let alive = srv.alive();
+    srv.stop();
+    json!({"ev":"Launch","case":idx,"focus":focus,"given":given,"obs":obs,"started":alive,
+           "rendered":{"env":env_vars,"argv":args,"toml":std::fs::read_to_string(dir.join("rws.config.toml")).unwrap_or_default()}})
+}
+
+/// C12 on the wire
+pub fn config(o: &Opts) -> i32 {
+    let bin = o.req("bin").to_string();
+    let scratch = PathBuf::from(o.req("scratch"));
+    let mut out = Out::create(o.req("out"));
+    let cases = std::sync::Arc::new(read_ndjson(o.req("cases")));
+    let next = std::sync::Arc::new(std::sync::atomic::AtomicUsize::new(0));
+    let par = o.num("parallel", 8) as usize;
+    let handles: Vec<_> = (0..par)
+        .map(|_| {
+            let cases = cases.clone();
+            let next = next.clone();
+            let bin = bin.clone();
+            let scratch = scratch.clone();
+            std::thread::spawn(move || {
+                let mut evs = vec![];
+                loop {
+                    let i = next.fetch_add(1, std::sync::atomic::Ordering::SeqCst);
+                    if i >= cases.len() {
+                        break;
+                    }
+                    // cases that rely on the default port 7878 cannot run side by side with each other
+                    evs.push((i, one_launch(&bin, &scratch, i, &cases[i])));
+                }
+                evs
+            })
+        })
+        .collect();
+    let mut evs: Vec<(usize, Value)> = handles.into_iter().flat_map(|h| h.join().unwrap_or_default()).collect();
+    evs.sort_by_key(|e| e.0);
+    // retry the launches that failed to start (port 7878 busy because two default-port cases overlapped), sequentially
+    for (i, e) in evs.iter_mut() {
+        if e["started"] == false {
+            *e = one_launch(&bin, &scratch, *i + 100000, &cases[*i]);
+        }
+    }
+    for (_, e) in evs.iter() {
+        out.emit(e);
+    }
+    let n = out.n;
+    out.finish();
+    eprintln!("wire-config: {} launches", n);
     0
 }
